@@ -266,6 +266,32 @@ def run(ctx):
         check(ctx, lentil, c, spec[c['id']], rng2)
         ctx.case(c['id'], nontrivial=len(c['steps']) > 1 or c['steps'][0]['mask']['k'] != 'none')
     reuse_checks(ctx, lentil, rng)
+    # a plane built with default attributes and given its sampled OPD / amplitude afterwards (attribute assignment, as the user guide
+    # allows "at any time") is the same pointwise phasor as the plane built with them
+    for _ in range(20):
+        m_, n_ = rng.randint(2, 5), rng.randint(2, 5)
+        O_ = np.array([[rng.randrange(16) for _ in range(n_)] for _ in range(m_)]) * (1e-6 / 16)
+        A_ = np.array([[rng.choice((0, 1, 2)) for _ in range(n_)] for _ in range(m_)], dtype=float)
+        A_[0, 0] = A_[-1, -1] = 1.0
+        which = rng.choice(('opd', 'amplitude', 'both'))
+        cls_ = rng.choice((lentil.Plane, lentil.Pupil))
+        kw_ = {'focal_length': 2.0} if cls_ is lentil.Pupil else {}
+        ctx.case(('late-attributes', which, cls_.__name__, m_, n_))
+        try:
+            late = cls_(pixelscale=1e-3, **kw_)
+            if which in ('opd', 'both'):
+                late.opd = O_
+            if which in ('amplitude', 'both'):
+                late.amplitude = A_
+            ref = cls_(pixelscale=1e-3, **dict(kw_, **({'opd': O_} if which != 'amplitude' else {}), **({'amplitude': A_} if which != 'opd' else {})))
+            wl_, wr_ = lentil.Wavefront(1e-6) * late, lentil.Wavefront(1e-6) * ref
+            ok = tuple(wl_.shape) == tuple(wr_.shape) == (m_, n_) and np.allclose(wl_.field, wr_.field, rtol=1e-12, atol=1e-12) \
+                and np.allclose(wl_.intensity, np.abs(wr_.field) ** 2, rtol=1e-12, atol=1e-12)
+            err = None
+        except Exception as ex:
+            ok, err = False, repr(ex)[:200]
+        if not ok:
+            ctx.violation({'kind': 'attributes-assigned-after-construction', 'which': which}, {'shape': [m_, n_], 'error': err}, case=None)
     # a wavefront that has met no sampled plane yet is one constant c on an unbounded plane (Optics!ConstPhasorTerms): its intensity is
     # |c|^2 everywhere, so accumulating it into ANY array with a weight adds weight * |c|^2 to every sample
     for _ in range(30):
